@@ -3,6 +3,7 @@ package symx
 import (
 	"fmt"
 	"go/types"
+	"os"
 
 	"golang.org/x/tools/go/ssa"
 )
@@ -105,6 +106,36 @@ func InstallMigrateStubs(e *Engine) {
 		}
 		rec(ps, ProcEvent{Op: "os.WriteFile", File: fmt.Sprint(args[0])})
 		return iface{}
+	}
+	// the same write spelled as OpenFile + Write + (Sync) + Close: one nondeterministic failure
+	// for the whole group, recorded like os.WriteFile (I/O errors while writing are outside the
+	// failure kinds the property lists; what matters is that no write happens on a refusal)
+	ic["os.OpenFile"] = func(ps *PathState, fr *frame, fn *ssa.Function, args []value) value {
+		if ps.Choice(2, "openfile") == 1 {
+			rec(ps, ProcEvent{Op: "os.WriteFile-error", File: fmt.Sprint(args[0])})
+			return tuple{(*fileObj)(nil), NewErr("stub", "os.OpenFile", "permission denied", nil)}
+		}
+		note := ""
+		if flag := int(asInt64(args[1])); flag&os.O_TRUNC == 0 && flag&os.O_APPEND == 0 && flag&os.O_EXCL == 0 {
+			note = " (opened without O_TRUNC)"
+		}
+		rec(ps, ProcEvent{Op: "os.WriteFile", File: fmt.Sprint(args[0]) + note})
+		return tuple{&fileObj{name: args[0]}, iface{}}
+	}
+	ic["(*os.File).Write"] = func(ps *PathState, fr *frame, fn *ssa.Function, args []value) value {
+		return tuple{len(bytesOf(args[1])), iface{}}
+	}
+	ic["(*os.File).WriteString"] = func(ps *PathState, fr *frame, fn *ssa.Function, args []value) value {
+		n := 0
+		if s, ok := args[1].(string); ok {
+			n = len(s)
+		}
+		return tuple{n, iface{}}
+	}
+	ic["(*os.File).Sync"] = func(ps *PathState, fr *frame, fn *ssa.Function, args []value) value { return iface{} }
+	ic["(*os.File).Close"] = func(ps *PathState, fr *frame, fn *ssa.Function, args []value) value { return iface{} }
+	ic["(*os.File).Name"] = func(ps *PathState, fr *frame, fn *ssa.Function, args []value) value {
+		return args[0].(*fileObj).name
 	}
 	// the synthetic FileSet of Writer.Write only serves the printer, which is stubbed
 	ic["(*go/token.FileSet).AddFile"] = func(ps *PathState, fr *frame, fn *ssa.Function, args []value) value {
